@@ -15,6 +15,7 @@ if [ "$1" = "--clean" ]; then
   exit 0
 fi
 name=$1; patch=$2; id=$3; shift 3
+case "$patch" in /*|-) ;; *) patch=$(pwd)/$patch ;; esac   # git -C <scratch> apply needs an absolute path
 base=/tmp/mw/$name
 pkg=$(echo $id | tr A-Z a-z)
 if [ ! -d $base/repo ]; then
